@@ -321,6 +321,10 @@ func runCmp3way(c *Ctx) {
 					good = a0 == iT && a1 == fT && inLo && inHi
 				}
 			}
+			if good && !onlySign(lp, iT+"−"+fT, 0) {
+				c.Fail(key, lp.Exit.Pos(), "the fraction is asked to decide on a path that has not established i == ⌊f⌋ (signs of i−⌊f⌋ still possible: %v): float64(i) is not exact for |i| > 2^53, so an integer above or below the real's integral part may compare equal", signsConsistent(lp, iT+"−"+fT))
+				continue
+			}
 			c.Check(good, key, lp.Exit.Pos(), "same integral part ⇒ cmpFloat64(float64(i), f) decides by the fraction (exact there, since |i| and f agree in their integral part); returns %s", res)
 		}
 	}
